@@ -121,3 +121,26 @@ Section ValueInd.
                    end) l)
     end.
 End ValueInd.
+
+(* dict.update with a well-formed dict: every key of the update takes the update's value *)
+Lemma rget_fold_rset_other r : forall y k,
+  ~ In k (rkeys r) -> rget (fold_left (fun a kv => rset a (fst kv) (snd kv)) r y) k = rget y k.
+Proof.
+  induction r as [|[a b] r IH]; intros y k N; simpl; [reflexivity|].
+  rewrite IH by (intros X; apply N; right; exact X).
+  apply rget_rset_other. intros ->. apply N. left. reflexivity.
+Qed.
+
+Lemma rget_rupdate_in r : forall x k v,
+  NoDup (rkeys r) -> rget r k = Some v -> rget (rupdate x r) k = Some v.
+Proof.
+  unfold rupdate. induction r as [|[a b] r IH]; intros x k v ND H; simpl in *; [discriminate|].
+  inversion ND as [|? ? Hn ND']; subst.
+  destruct (str_eqb k a) eqn:E.
+  - apply str_eqb_eq in E. subst a. injection H as <-.
+    rewrite rget_fold_rset_other by exact Hn. apply rget_rset_same.
+  - apply IH; assumption.
+Qed.
+
+Lemma rget_rupdate_notin r x k : ~ In k (rkeys r) -> rget (rupdate x r) k = rget x k.
+Proof. intros N. unfold rupdate. apply rget_fold_rset_other, N. Qed.
